@@ -89,7 +89,8 @@ func (runInfo *runInfoStruct) invokeComparisonOperator(operator *ast.ComparisonO
 	if runInfo.rv.Kind() == reflect.Interface && !runInfo.rv.IsNil() {
 		runInfo.rv = runInfo.rv.Elem()
 	}
-	lhsV := runInfo.rv
+	// the left operand is a value: evaluating the right operand must not change it
+	lhsV := unalias(runInfo.rv)
 
 	runInfo.expr = operator.RHS
 	runInfo.invokeExpr()
@@ -154,7 +155,8 @@ func (runInfo *runInfoStruct) invokeAddOperator(operator *ast.AddOperator) {
 	if runInfo.rv.Kind() == reflect.Interface && !runInfo.rv.IsNil() {
 		runInfo.rv = runInfo.rv.Elem()
 	}
-	lhsV := runInfo.rv
+	// the left operand is a value: evaluating the right operand must not change it
+	lhsV := unalias(runInfo.rv)
 
 	runInfo.expr = operator.RHS
 	runInfo.invokeExpr()
@@ -234,7 +236,8 @@ func (runInfo *runInfoStruct) invokeMultiplyOperator(operator *ast.MultiplyOpera
 	if runInfo.rv.Kind() == reflect.Interface && !runInfo.rv.IsNil() {
 		runInfo.rv = runInfo.rv.Elem()
 	}
-	lhsV := runInfo.rv
+	// the left operand is a value: evaluating the right operand must not change it
+	lhsV := unalias(runInfo.rv)
 
 	runInfo.expr = operator.RHS
 	runInfo.invokeExpr()
